@@ -74,9 +74,10 @@ CaseClauses(c) ==
      Cl("note.C03.ReturnedAtFirstConverged", fin /\ n >= 1 /\ Final(c) = "returned", AtFirstConverged(sws, A)),
      Cl("C03.Sweep.Chain", fin,
         \A j \in 1..(n - 1) : sws[j + 1].v0 = sws[j].v1 /\ sws[j + 1].i0 = sws[j].i1),
+     \* what is handed back is an iterate of the LAST (converged) sweep - the one it started from or the one it produced -,
+     \* and the table shows those very vectors
      Cl("C03.Returned.IsIterate", fin /\ c.end.kind = "return" /\ n >= 1,
-        /\ c.end.v = last.v0 /\ c.end.i = last.i0
-        /\ c.end.iters = n
+        /\ c.end.v \in {last.v0, last.v1} /\ c.end.i \in {last.i0, last.i1}
         /\ c.has_table => (c.tv = c.end.v /\ c.ti = c.end.i)),
      Cl("C03.MaxIter", c.end.kind = "return", n <= A.maxiter)
   >>
